@@ -3,7 +3,7 @@ import re
 
 from engines import effects, arms, typestate
 from engines.paths import enumerate_paths, classify_return
-from engines.prog import cname, term_str, op_place
+from engines.prog import cname, term_str, op_place, place_fields
 from engines import terms as T
 
 CONFIGS = ["tls", "notls"]
@@ -316,4 +316,56 @@ def run(ctx):
                                    fn=b.path, construct="call", callee=n_, where=b.where(bb))
                         else:
                             ctx.ob("C19.no-panic-on-fault", True, "", fn=b.path, construct="call", callee=n_, nontrivial=False)
-        ctx.floor("C19.no-panic-on-fault", "unwrap/expect sites on io results examined", n_unw, 2)
+        ctx.floor("C19.no-panic-on-fault", "unwrap/expect sites on io results examined", n_unw, 1)
+        # ---- deferred errors (Drop impls cannot return): stored once, reported by the next flush --------------
+        ctx.rule("C19.deferred-error", "an error met while finalizing on drop is stored in the connection and returned by the next flush")
+        drops = [i for i in prog.impls if i.get("trait_path") == "std::ops::Drop" and i["self_ty"].startswith(("resultset::RowWriter<", "resultset::QueryResultWriter<"))]
+        defer = prog.find(r"^packet::PacketConn::<\w+>::defer_error$")
+        for imp in drops:
+            b = prog.bodies[imp["methods"][0]]
+            ctx.fn(b)
+            for bb, t in b.calls():
+                dl = t["dest"]
+                if dl["p"] or not is_result_local(b, dl["l"]):
+                    continue
+                # the Err arm of the finaliser's result must reach defer_error on every path
+                v, why = disciplined(b, dl["l"])
+                npaths = nbad = 0
+                for p in enumerate_paths(b):
+                    if p.end != "return":
+                        continue
+                    took_err = False
+                    for i, blk in enumerate(p.blocks[:-1]):
+                        tt = b.term(blk)
+                        if tt["k"] == "switch":
+                            dv = p.origin_op(tt["discr"], i)
+                            if dv[0] == "discr" and T.contains(dv, lambda x: x[0] == "call" and x[3] == ("site", bb)):
+                                vals = [int(x) for x, g in zip(tt["vals"], tt["tgts"]) if g == p.blocks[i + 1]]
+                                took_err = vals == [1] or (not vals and "0" in tt["vals"])
+                    if took_err:
+                        npaths += 1
+                        deferred = any(defer and cname(t2["func"]) == defer[0].path for pos, blk, t2 in p.calls())
+                        # the RowWriter may already have handed its result writer on (finished): then nothing can have failed
+                        if not deferred:
+                            nbad += 1
+                ctx.ob("C19.deferred-error", v != "bad" and npaths >= 1 and nbad <= (1 if "RowWriter" in imp["self_ty"] else 0),
+                       "%s: the error of the finaliser is not handed to the connection on %d of %d error paths (%s)" % (b.path, nbad, npaths, why),
+                       fn=b.path, construct="drop-defers", where=b.where(bb), sample={"rule": "deferred-error", "fn": b.path, "error_paths": npaths})
+        if defer:
+            d = defer[0]
+            ctx.fn(d)
+            stores = [s_ for _, _, s_ in d.stmts() if s_["k"] == "assign" and place_fields(s_["lhs"])[:1] == ["deferred_error"]]
+            ctx.ob("C19.deferred-error", len(stores) >= 1, "defer_error does not store the error", fn=d.path, construct="stores", nontrivial=False)
+            fl = roles.f_flush
+            n_err = 0
+            for p in enumerate_paths(fl):
+                if p.end != "return":
+                    continue
+                rv = p.return_value()
+                if rv[0] == "agg" and rv[3] == "Err" and T.contains(rv, lambda x: T.is_call(x, r"Option::<T>::take$") and T.contains(x, lambda y: T.is_field(y, "deferred_error"))):
+                    n_err += 1
+                    # returned before anything else is written or flushed
+                    others = [cname(t2["func"]) for pos, blk, t2 in p.calls() if "writes" in eff.of_call(fl, blk, t2) or cname(t2["func"]).endswith("Write::flush")]
+                    ctx.ob("C19.deferred-error", not others, "flush writes (%s) before reporting the deferred error" % others, fn=fl.path, construct="reported-first")
+            ctx.ob("C19.deferred-error", n_err >= 1, "the connection flush never returns the deferred error", fn=fl.path, construct="flush-reports")
+        ctx.ob("C19.deferred-error", bool(defer) or not drops, "result writers finalize on drop but there is no deferred-error channel", fn="packet::PacketConn", construct="channel", nontrivial=False)
